@@ -99,11 +99,26 @@ def specIter (t : Ty) (v : Val) : String :=
     | _, _ => []
   "ok" ++ String.join items ++ " . . ."
 
+/-- the components indexed access to the plain value yields, one token group per position -/
+def specItems (t : Ty) (v : Val) : List (List String) :=
+  match t, v with
+  | .bitvector _, .bits bs | .bitlist _, .bits bs => bs.map fun b => [if b then "1" else "0"]
+  | _, .seq vs => vs.map fun x => "|" :: ((showVal x).splitOn " ").filter (· ≠ "")
+  | _, _ => []
+
+/-- the first `k` calls of an iterator -/
+def stepsK : Nat → Iter.AnyIt → List Iter.Out × Iter.AnyIt
+  | 0, it => ([], it)
+  | k + 1, it =>
+    let (o, it') := it.next
+    let (os, it'') := stepsK k it'
+    (o :: os, it'')
+
 /-! ### op dispatch -/
 
 def isHistOp (n : String) : Bool :=
   ["begin", "mk", "get", "val", "copy", "set", "setv", "app", "pop", "chg", "obs", "len", "rd",
-   "snap", "chk", "memo", "hcount", "sum", "iter", "rset", "rtxt", "blen", "appd", "setd", "appv", "obsg", "iterget", "rehash", "iter2", "setu", "appu", "chgu"].contains n
+   "snap", "chk", "memo", "hcount", "sum", "iter", "rset", "rtxt", "blen", "appd", "setd", "appv", "obsg", "iterget", "rehash", "iter2", "setu", "appu", "chgu", "iterm"].contains n
 
 /-- PROP verdict of an operation of the two machines: the implementation's observation must be
     what the plain value machine says.  On a summarised backing (C12) an error is acceptable
@@ -298,6 +313,53 @@ where stepH (s : HState) (name : String) (args impl : List String) : Except Stri
           if impl.head? == some "ok" && chk 0 imG then "ok" else s!"FAIL:partial-iterator-yields-different-data:spec={sp.take 200}"
         else s!"FAIL:iterator-differs-from-indexed-access:spec={sp.take 200}"
       pure (s, m, v)
+  | "iterm", h1 :: k :: mop :: rest => do
+    -- index-based iterator advanced k times, then the view is mutated, then finished
+    let k ← natTok k
+    let op? : Option (Nat → Op) ← match mop, rest with
+      | "pop", _ => pure (some fun id => Op.pop id)
+      | "app", r => do let (x, _) ← runP val r; pure (some fun id => Op.app id x)
+      | "set", i :: r => do let i ← natTok i; let (x, _) ← runP val r; pure (some fun id => Op.set id i x)
+      | _, _ => pure none
+    match op? with
+    | none => throw "bad iterm mutation"
+    | some mkOp =>
+    withId h1 fun id => do
+      let o := s.ms[id]!
+      let v0 := (s.vs[id]!).val
+      let it0 := Iter.start o.ty o.node false
+      let len0 := match it0 with | .indexed _ _ ln _ => ln | _ => 0
+      if s.partialTree || k > len0 then throw "iterm: partial tree or pause point beyond the length" else
+      let (outs1, itk) := stepsK k it0
+      let (s', om, _) := both s (mkOp id) [] none (some id)
+      let o' := s'.ms[id]!
+      let v1 := (s'.vs[id]!).val
+      let vOut := (stepV sha s.vs (mkOp id)).2
+      let itk' := match itk with | .indexed t _ ln i => Iter.AnyIt.indexed t o'.node ln i | x => x
+      let outs2 := collectX 100000 0 none itk'
+      let m := renderOuts outs1 ++ " m=" ++ om ++ (renderOuts outs2).drop 2
+      -- PROP, call by call: before the mutation the old components; afterwards the CURRENT
+      -- component while the position still exists, an error where it no longer does, the end
+      -- report from the captured length on
+      let elems := match o.ty with | .bitvector _ | .bitlist _ => false | _ => true
+      let it0s := specItems o.ty v0
+      let it1s := specItems o.ty v1
+      let want (c : Nat) : List String :=
+        if c < k then it0s.getD c ["?"]
+        else if c < len0 then (if c < it1s.length then it1s.getD c ["?"] else ["E"])
+        else ["."]
+      let (pre, post) := impl.drop 1 |>.span (fun t => !(t.startsWith "m="))
+      let g1 := iterGroups elems pre
+      let g2 := iterGroups elems (post.drop 1)
+      let rec chkM (c : Nat) : List (List String) → Bool
+        | [] => true
+        | g :: gs => (g == want c) && chkM (c + 1) gs
+      let mOk := post.head? == some ("m=" ++ render vOut)
+      let v := if impl == ["panic"] then "FAIL:panic"
+        else if impl.head? != some "ok" || !mOk then "FAIL:iterm-mutation-outcome-differs"
+        else if g1.length != k || !(chkM 0 g1) || !(chkM k g2) then "FAIL:iterator-yields-a-component-the-view-does-not-have"
+        else "ok"
+      pure (s', m, v)
   | _, _ => throw s!"bad history op {name}"
 
 def handle (s : HState) (name : String) (args impl : List String) : Option (Except String (HState × String × String)) :=
